@@ -99,6 +99,8 @@ pub struct RawInfo {
     /// Index into `boundaries` last matched by a batched subscriber.
     pub bidx: usize,
     pub saw_reset: bool,
+    /// the last item delivered was the final diff of a multi-diff batch (unbatched stream)
+    pub just_finished_batch: bool,
 }
 
 pub struct TapState {
@@ -185,9 +187,11 @@ impl TapState {
         if is_reset {
             raw.saw_reset = true;
             w.counters.inc("fault.F1_overflow_reset_delivered");
-            if raw.partial > 0 {
-                w.counters.inc("probe.reset_while_mid_batch");
+            if raw.just_finished_batch {
+                // the overflow happened while this consumer was still yielding a multi-diff batch
+                w.counters.inc("probe.lagged_while_yielding_a_batch");
             }
+            raw.just_finished_batch = false;
             let values = match &diffs[0] {
                 VectorDiff::Reset { values } => vs(values),
                 _ => unreachable!(),
@@ -261,8 +265,11 @@ impl TapState {
                         cs.violate(env, &["C05", "C07"], "replay_mismatch_at_boundary", 0, detail);
                         return;
                     }
+                    raw.just_finished_batch = !self.batched && w.msgs[raw.cursor].diffs.len() > 1;
                     raw.cursor += 1;
                     raw.partial = 0;
+                } else {
+                    raw.just_finished_batch = false;
                 }
             }
         }
